@@ -18,7 +18,7 @@ RULE = ("(a) exhaustive small: every length 1..6 with every simple location on b
         "end occur), checking rc, rc.rc and rc(r>>k) vs rc(r)<<k; (c) embedded: the assemblies of reverse-complemented inputs. "
         "Non-trivial = the record carries at least one feature that is not whole-length; distinct = distinct (length, parts, prior rotations, k).")
 ASSUMPTIONS = [
-    "records are CircularRecords over Seq with exact positions; default arguments of reverse_complement()",
+    "records are CircularRecords over Seq; positions of any Biopython kind are compared through their integer value; default arguments of reverse_complement()",
     "unstranded features are compared as position sets (they have no reading direction)",
     "a feature covering the whole circle exactly once has no distinguished start",
 ]
